@@ -1113,6 +1113,165 @@ SPECS["C08"]["level_text"] += (' Track hc3 (Props/C08S): the specification funct
     '(segments_complete), the segments joined by FE FD are the stream with consecutive ranges (segments_tile), and the decomposition is unique, i.e. the '
     'pieces are maximal (segments_unique).')
 
+# ---- track anch: the codecs' ANCHORED input method in the proved single-iovec vocabulary; the `_partial` restriction
+# ---- ("borrow/copy input methods only") of Props/C01W, C02W, C09W lifted by Props/C01G, C02G, C09H
+SPECS["C01"]["lean_modules"] += ["Woodpile.Props.C01G"]
+SPECS["C01"]["theorems"] += [
+    "Woodpile.Props.C01G.run_extends",
+    "Woodpile.Props.C01G.read_piece",
+    "Woodpile.Props.C01G.encWorld_no_panic",
+    "Woodpile.Props.C01G.encWorld_is_ops",
+    "Woodpile.Props.C01G.encWorld_abs_between_calls",
+    "Woodpile.Props.C01G.encWorld_abs",
+    "Woodpile.Props.C01G.enc_world_output",
+    "Woodpile.Props.C01G.world_roundtrip",
+    "Woodpile.Props.C01G.dec_world_output",
+    "Woodpile.Props.C01G.world_roundtrip_both",
+]
+SPECS["C01"]["level_text"] += (' Props/C01G (track anch) LIFTS the `_partial` restriction of Props/C01W: the call vocabulary EncWorld.ACall adds '
+    'encode_read / decode_read with an arbitrary scripted reader (= read_n into the codec\'s OWN arena, then encode_anchored / decode_anchored: '
+    'OwningIovec::push of sub-slices of the returned chunk slice — copied when small, borrowed and possibly merged otherwise — then push_anchor; '
+    'Model/EncWorld.encodeRead / decodeRead, the functions Driver/CodecW replays for the op words `feed a` and `feed_read`), and every C01W theorem is '
+    'restated over it without the suffix (run_extends: the old vocabulary is embedded). Anchored input from a FOREIGN arena is, for the iovec\'s content, '
+    'the borrow method (memory that outlives the iovec) and is covered as such. At the state-machine level the anchored method IS the borrow method '
+    '(encode_anchored calls self.encode(slice)), which is why Hcobs.Method has two constructors and Driver/Hcobs.parseMethod maps a / r to borrow. '
+    'Underneath, the single-iovec invariant IovInv (Proofs/IovecInv) now says owned slices are pairwise disjoint (not allocation-ordered) and '
+    'allows zero-count anchors; Proofs/IovecAnch has the held-arena-slice lemmas (read_n, push of held memory, push_anchor).')
+SPECS["C02"]["lean_modules"] += ["Woodpile.Props.C02G"]
+SPECS["C02"]["theorems"] += [
+    "Woodpile.Props.C02G.enc_world_no_stuff",
+    "Woodpile.Props.C02G.enc_world_split_independent",
+    "Woodpile.Props.C02G.enc_world_length_bound_prod",
+]
+SPECS["C02"]["level_text"] += (' Props/C02G (track anch) lifts the `_partial` restriction of Props/C02W: no-stuff, split/method/drain independence and the '
+    'production length bound on the structural iovec for ALL input methods (borrow, copy, anchored reads with any reader behaviour; vocabulary '
+    'EncWorld.ACall, see C01).')
+SPECS["C09"]["lean_modules"] += ["Woodpile.Props.C09H"]
+SPECS["C09"]["theorems"] += [
+    "Woodpile.Props.C09H.enc_lag_struct",
+    "Woodpile.Props.C09H.enc_lag_le_partial",
+    "Woodpile.Props.C09H.dec_lag_zero_world",
+    "Woodpile.Props.C09H.enc_drained_stable_prefix",
+    "Woodpile.Props.C09H.enc_drained_complete",
+    "Woodpile.Props.C09H.enc_slices_in_cap",
+    "Woodpile.Props.C09H.enc_lag_le",
+    "Woodpile.Props.C09H.enc_lag_le_prod",
+]
+SPECS["C09"]["level_text"] += (' Props/C09H (track anch) lifts the method restriction of Props/C09W: the exact structural lag of the encoder-driven iovec '
+    '(enc_lag_struct) and decoder lag 0 (dec_lag_zero_world) hold for ALL input methods (EncWorld.ACall: borrow, copy, anchored reads). '
+    'C09H.enc_lag_le_partial keeps the in-capacity fact as a hypothesis (as C09W, hence the name); C09H.enc_lag_le / enc_lag_le_prod DISCHARGE it for all input '
+    'methods by a direct capacity invariant along the run (Proofs/EncWorldCap): lag < S + max(maxInit,maxSub) where S is the largest chunk the arena tuning '
+    'allocates for requests up to B and every anchored read asks for at most B bytes; production tuning, reads < 2^20 bytes: lag < 2^20 + 64008 + 2 '
+    '(with anchored reads of 2^20 bytes or more the arena chunk, hence the constant, grows with the largest count requested - the property\'s "one arena chunk"). The PREFIX clause on the structural iovec '
+    '(enc_drained_stable_prefix): between the calls of any run, drained ++ bytes of the first n slices, n = Iov.stableCount (what the driver prints through), '
+    'is a prefix of Spec.encode of the whole input whatever calls follow; enc_drained_complete: nothing is lost at the end.')
+SPECS["C17"]["lean_modules"] += ["Woodpile.Props.C17W"]
+SPECS["C17"]["theorems"] += [
+    "Woodpile.Props.C17W.codec_read_n",
+    "Woodpile.Props.C17W.encode_read_spec",
+    "Woodpile.Props.C17W.encode_read_failed_bump",
+    "Woodpile.Props.C17W.read_is_feed_of_delivered",
+    "Woodpile.Props.C17W.dec_read_is_feed_of_delivered",
+]
+SPECS["C17"]["level_text"] += (' Props/C17W (track anch): the codec-level clauses. Encoder/Decoder read_n, encode_read and decode_read are Model functions now '
+    '(Model/EncWorld: readOwn, encodeRead, decodeRead - the ones Driver/CodecW replays for `feed a` / `feed_read`): the codec\'s read_n is ReadN.readNCore on the '
+    'iovec\'s own arena with ReadN.readN\'s arena effect (so read_n_spec / read_n_releases_unread apply verbatim), returns a slice of at most count bytes holding '
+    'exactly the bytes read, and leaves the iovec\'s slices and bytes untouched (codec_read_n); between the calls of any encoder run encode_read never panics, a '
+    'failed read changes nothing but the arena, whose bump pointer is back where ensure_capacity left it, and a successful one leaves the state encode of exactly '
+    'those bytes leaves (encode_read_spec, encode_read_failed_bump); in any run an encode_read / decode_read can be replaced by encode / decode of the delivered '
+    'bytes (by nothing when it failed) without changing output or verdict (read_is_feed_of_delivered, dec_read_is_feed_of_delivered).')
+SPECS["C03"]["lean_modules"] += ["Woodpile.Props.C03G"]
+SPECS["C03"]["theorems"] += [
+    "Woodpile.Props.C03G.aop_refines",
+    "Woodpile.Props.C03G.read_push_no_panic",
+    "Woodpile.Props.C03G.read_push_appends",
+    "Woodpile.Props.C03G.reachable_refines",
+    "Woodpile.Props.C03G.reachable_facts",
+]
+SPECS["C03"]["level_text"] += (' Props/C03G (track anch): the vocabulary extended with ANCHORED pushes. AOp = Op + the composite readPush (read_n into the iovec\'s own '
+    'arena with a scripted, possibly faulty reader; OwningIovec::push of the sub-slices of the returned slice selected by a cut list, in order - copied or borrowed '
+    'arena memory, merged when adjacent -; push_anchor): it never panics, preserves the structural invariant and refines append of exactly the selected pieces of '
+    'the bytes read; every AOp history from the initial world refines the abstract pipe (reachable_refines), sizes / non-empty slices / hole-free stable prefix '
+    'included (reachable_facts). For this the invariant IovInv was weakened: owned slices pairwise disjoint (not allocation-ordered), zero-count anchors allowed. '
+    'Scope: own-arena anchored slices pushed as one composite; interleaving with register_patch/backfill is the encoder\'s pattern (Props/C01G); foreign '
+    'AnchoredSlices, clone/take/arena swap remain C20\'s multi-object vocabulary.')
+
+# ---- track apigaps: the remaining public API of owning_iovec (Model/IovecApi.lean, op words of fam_iovec/api.rs)
+SPECS["C03"]["lean_modules"] += ["Woodpile.Props.C03A"]
+SPECS["C03"]["theorems"] += [
+    "Woodpile.Props.C03A.new_from_slices_abs",
+    "Woodpile.Props.C03A.from_iter_abs",
+    "Woodpile.Props.C03A.new_from_slices_arena_abs",
+    "Woodpile.Props.C03A.from_iter_then_run",
+    "Woodpile.Props.C03A.front_is_first_stable",
+    "Woodpile.Props.C03A.iter_is_stable_prefix",
+    "Woodpile.Props.C03A.flatten_into_appends",
+    "Woodpile.Props.C03A.stable_views_complete",
+    "Woodpile.Props.C03A.read_takes_stable_prefix",
+    "Woodpile.Props.C03A.sink_refines",
+    "Woodpile.Props.C03A.stable_consumer_calls",
+]
+SPECS["C03"]["level_text"] += (' Props/C03A (track apigaps): the public entry points outside that vocabulary are modelled one by one in '
+    'Model/IovecApi.lean and exercised by the iovec family (op words from_iter, from_iter_ref, new_from_slices_arena, front, iter, flatten_into, '
+    'stable, try_stable, sc_consume/sc_advance/sc_read/sc_pop, sink_copy/sink_borrow through dyn / &mut T, is_last, a_clone, s_default, bref_default, '
+    'new_default, c_reserve): FromIterator (both impls) and new_from_slices with an arena build an iovec that satisfies the invariant and abstracts to '
+    'the pipe holding the concatenation (every C03/C04 theorem continues from it: from_iter_then_run); front / IntoIterator / iovs / flatten / '
+    'flatten_into(dst) / StableIovec::{iovs, flatten, flatten_into} return the stable bytes in order with dst kept in front; Read as the crate writes it '
+    '(front + advance_slices) is readInto; ZeroCopySink is push_copy / push; consumer calls through a StableIovec or the Err side of stable_consumer '
+    'are the plain consumer calls. The harness oracle checks every new accessor against stable_prefix() and the shadow buffer.')
+SPECS["C04"]["lean_modules"] += ["Woodpile.Props.C04A"]
+SPECS["C04"]["theorems"] += [
+    "Woodpile.Props.C04A.accessors_ok_iff_no_pending",
+    "Woodpile.Props.C04A.front_and_iter_before_first_hole",
+    "Woodpile.Props.C04A.read_stops_before_placeholder",
+]
+SPECS["C04"]["level_text"] += (' Props/C04A (track apigaps): iovs / flatten / flatten_into(dst) / stable_consumer / StableIovec::try_from now have model '
+    'functions (Model/IovecApi.lean: a Result<T,T> is (isOk, payload)) that the driver prints and the correspondence run compares: all four are Ok '
+    'exactly when the pipe has no hole, and Ok or Err the payload is the stable prefix (byte cells at the front of the pipe, dst kept in front); '
+    'front / iteration hand out stable slices only; Read as the crate writes it (front + advance_slices) stops before the first placeholder.')
+SPECS["C05"]["lean_modules"] += ["Woodpile.Props.C05A"]
+SPECS["C05"]["theorems"] += [
+    "Woodpile.Props.C05A.from_iter_is_wstep",
+    "Woodpile.Props.C05A.sink_is_wstep",
+    "Woodpile.Props.C05A.defaults_are_wsteps",
+    "Woodpile.Props.C05A.stable_consumer_is_wstep",
+    "Woodpile.Props.C05A.new_from_slices_arena_is_wrun",
+    "Woodpile.Props.C05A.accessors_return_stable_slices",
+    "Woodpile.Props.C05A.accessors_exposed_live",
+]
+SPECS["C05"]["level_text"] += (' Model identity (audit gap 6): the Lean driver of the iovec family no longer wires the model functions a second time - '
+    'it parses every op line into WOp values and computes the next world with World.step / World.run, the very function these theorems quantify over '
+    '(Driver/Iovec.lean: parseWOp, stepWOp; World.step = none is classified as bad-op / caught wrong-size backfill panic / panic). Props/C05A (track apigaps): '
+    'the op words added for the rest of the public API (from_iter, ZeroCopySink, ByteArena::clone, Backref::default, consumer calls through a StableIovec) '
+    'are executed as the WOp steps they are proved equal to, and front / iteration / iovs / StableIovec::iovs hand out slices of the stable prefix only, so '
+    'exposed_live covers them.')
+# rough_tlv: MessageView::inner / into_inner, Tag conversions and ordering (Model/RoughTlvApi.lean)
+SPECS["C12"]["lean_modules"] += ["Woodpile.Props.C12A"]
+SPECS["C12"]["theorems"] += [
+    "Woodpile.Props.C12A.inner_is_input",
+    "Woodpile.Props.C12A.tag_value_of_u32",
+    "Woodpile.Props.C12A.tag_of_value",
+    "Woodpile.Props.C12A.tag_order_is_value_order",
+]
+SPECS["C12"]["level_text"] += (" Props/C12A (track apigaps): inner()/into_inner() return the bytes the view was built from (printed and compared on every "
+    "view); Tag as the crate stores it (4 bytes): u32 <-> Tag <-> [u8;4] round trips, Ord/PartialOrd = order of the little-endian values (op `tag a b` "
+    "of the tlvview family: every From/Into impl, new, new_from_u32, value, cmp, partial_cmp, <, == on pairs whose byte order and value order differ).")
+# vouched_time: VouchedTime::new_or_die / now_or_die (Model/VouchedTimeApi.lean)
+SPECS["C14"]["lean_modules"] += ["Woodpile.Props.C14A"]
+SPECS["C14"]["theorems"] += [
+    "Woodpile.Props.C14A.new_or_die_cases",
+    "Woodpile.Props.C14A.new_or_die_rule",
+    "Woodpile.Props.C14A.now_or_die_same_rule",
+]
+SPECS["C14"]["level_text"] += (" Props/C14A (track apigaps): the _or_die constructors (ops new_or_die / now_or_die of the vtime family) return a value "
+    "exactly inside the same window and die everywhere else; never a VouchedTime outside the rule.")
+# hcobs::find_stuff_sequence called directly (op `find` of hcobs_enc)
+SPECS["C02"]["lean_modules"] += ["Woodpile.Props.C02A"]
+SPECS["C02"]["theorems"] += ["Woodpile.Props.C02A.find_stuff_sequence_spec"]
+SPECS["C02"]["level_text"] += (" Props/C02A (track apigaps): the public hcobs::find_stuff_sequence is exercised on its own (op `find`: FE/FD runs, a pair at every "
+    "position incl. the last two bytes) against Spec.findStuff, characterised exactly (first occurrence / none). The production Encoder is also fed through its "
+    "ZeroCopySink impl behind `dyn` (methods S / T of hcobs_enc, model = the borrow / copy methods).")
+
 # ---------------------------------------------------------------------------------------------
 # track gen3: structured-sweep generators (HCOBS piece boundaries, every chunk length / header value, single-defect sweeps of
 # the "all neighbours ordered" scans of rough_tlv) and iterator-protocol scripts on every public iterator
@@ -1174,8 +1333,8 @@ SPECS["C12"]["families"][0]["shards"] = {"quick": 4}
 _GEN3_HCOBS_TEXT = (
     " Structured sweeps (track gen3). Piece boundaries: 8 patterns of (last bytes of one piece | first bytes of the next: FE|FD, FE|FE FD, "
     "FE|xx, xx|FD, FE FD FE|FD, FE FE|FD, FD|FE, FE|empty|FD) x size classes of the second piece {{1, 2, 64, 256, 4096, 64008, 65535, "
-    "65536, 65537}} (thorough: + 63, 65, 255, 257, 64007, 64009, 131072, 131073, 262144, 2^20, 2^20+1) x input-method pairs (2 per cell in "
-    "quick, all 16 in thorough) x position of the boundary in the current chunk (piece 1 = 0 / 3 / 249..251 filler bytes + the pattern), "
+    "65536, 65537}} (thorough: + 63, 65, 255, 257, 64007, 64009, 131072, 131073, 262144, 2^20, 2^20+1) x input-method pairs of b/c/a/r/S/T (2 per cell in "
+    "quick, all 36 in thorough) x position of the boundary in the current chunk (piece 1 = 0 / 3 / 249..251 filler bytes + the pattern), "
     "where every piece BODY is constant filler without FE / FD (optionally one lone FD or one stuff sequence in the middle, FE / FD as "
     "last byte, a third piece FD.. of 1 / 3 / 65537 bytes), written with the compact byte-string tokens `*TTxN` (N copies of TT) joined "
     "by `+`, parsed identically by util::from_hex and Driver.parseHex. Every chunk length: zenc{zdec} on 252 + k zero bytes for every k in "
